@@ -166,6 +166,53 @@ static bool varLenMemOnParam(Function &F) {
   return false;
 }
 
+// "is this length acceptable"-style helpers: small, loop-free, call-free, integer result that is a comparison (or
+// 0 / 1) on every path, no stores to anything but their own locals.  The facts a caller learns from testing the
+// result depend on the constants it passes, so the helper is inlined rather than summarised.
+static bool boolLike(Value *V, int depth = 0) {
+  if (depth > 6) return false;
+  if (isa<ConstantInt>(V)) return true;      // 0 / 1, or one of a few literal answers (a round count)
+  if (isa<ICmpInst>(V)) return true;
+  if (auto *Z = dyn_cast<ZExtInst>(V)) return Z->getOperand(0)->getType()->isIntegerTy(1);
+  if (auto *P = dyn_cast<PHINode>(V)) {
+    for (Value *I : P->incoming_values())
+      if (!boolLike(I, depth + 1)) return false;
+    return true;
+  }
+  if (auto *L = dyn_cast<LoadInst>(V)) {
+    // -O0: the return value travels through an alloca slot
+    if (auto *A = dyn_cast<AllocaInst>(L->getPointerOperand())) {
+      bool any = false;
+      for (User *U : A->users())
+        if (auto *S = dyn_cast<StoreInst>(U))
+          if (S->getPointerOperand() == A) {
+            any = true;
+            if (!boolLike(S->getValueOperand(), depth + 1)) return false;
+          }
+      return any;
+    }
+  }
+  if (auto *B = dyn_cast<BinaryOperator>(V))
+    if (B->getOpcode() == Instruction::And || B->getOpcode() == Instruction::Or)
+      return boolLike(B->getOperand(0), depth + 1) && boolLike(B->getOperand(1), depth + 1);
+  return false;
+}
+
+static bool booleanPredicate(Function &F) {
+  if (!F.getReturnType()->isIntegerTy() || hasLoop(F) || realInsts(F) > 60) return false;
+  bool anyRet = false;
+  for (Instruction &I : instructions(F)) {
+    if (isRealCall(I)) return false;
+    if (auto *S = dyn_cast<StoreInst>(&I))
+      if (!isa<AllocaInst>(S->getPointerOperand())) return false;
+    if (auto *R = dyn_cast<ReturnInst>(&I)) {
+      anyRet = true;
+      if (!R->getReturnValue() || !boolLike(R->getReturnValue())) return false;
+    }
+  }
+  return anyRet;
+}
+
 static bool selfRecursive(Function &F) {
   for (Instruction &I : instructions(F))
     if (auto *CB = dyn_cast<CallBase>(&I))
@@ -213,6 +260,8 @@ int main(int argc, char **argv) {
       chosen[&F] = "H helper containing an indirect call";
     else if (onlyWrappers[&F])
       chosen[&F] = "W helper called only from trivial public wrappers";
+    else if (booleanPredicate(F))
+      chosen[&F] = "B loop-free call-free predicate / selector helper (returns comparison results or literals)";
     else if (!hasLoop(F) && varLenMemOnParam(F))
       chosen[&F] = "M loop-free helper with a variable-length memcpy/memset on a parameter";
   }
